@@ -14,7 +14,7 @@ for name in sorted(os.listdir(sd)):
     what = ''
     if os.path.exists(notes):
         first = open(notes).readline().strip().lstrip('# ').strip()
-        what = re.sub(r'^C\d\d\s*/\s*m\d\s*[-:]\s*', '', first)
+        what = re.sub(r'^C\d\d\s*/\s*m\d\s*[-:\u2014\u2013]+\s*', '', first)
     what = what or m.get('what', '')
     det = m.get('detected_by', {})
     by = ', '.join(f"{p}: {'yes' if v.startswith('VIOLATION') else 'no'}" for p, v in sorted(det.items())) or 'not run'
